@@ -54,11 +54,24 @@ fn check_case(case: &Value) -> Option<Value> {
     let json_scalar = if is_int { text.clone() } else { serde_json::to_string(&text).unwrap() };
     if case["target"] == "size" {
         let want_val = val.map(|v| v << shift);
-        for (fmt, doc) in [("yaml", format!("limit: {}\n", yaml_scalar)), ("json", format!("{{\"limit\": {}}}", json_scalar))] {
+        // the same scalar as each format hands it over: YAML and JSON (unsigned where they can), TOML (integers are
+        // signed 64-bit there), and a configuration value built by a program holding a signed integer
+        for (fmt, doc) in [("yaml", format!("limit: {}\n", yaml_scalar)), ("json", format!("{{\"limit\": {}}}", json_scalar)),
+                           ("toml", format!("limit = {}\n", json_scalar)), ("i64 value", text.clone())] {
             let parsed: Result<serde_value::Value, String> = if fmt == "yaml" {
                 serde_yaml::from_str(&doc).map_err(|e| e.to_string())
-            } else {
+            } else if fmt == "json" {
                 serde_json::from_str(&doc).map_err(|e| e.to_string())
+            } else if fmt == "toml" {
+                match toml::from_str(&doc) {
+                    Ok(v) => Ok(v),
+                    Err(_) => continue, // (not a TOML document: its integers have no leading zeros and end at 2^63 - 1)
+                }
+            } else {
+                match (is_int, doc.trim().parse::<i64>()) {
+                    (true, Ok(n)) => Ok(serde_value::Value::Map(std::iter::once((serde_value::Value::String("limit".into()), serde_value::Value::I64(n))).collect())),
+                    _ => continue,
+                }
             };
             let got: Result<String, String> = match parsed {
                 Err(e) => Err(format!("document: {}", e)),
@@ -103,9 +116,19 @@ fn check_case(case: &Value) -> Option<Value> {
             }
         }
         let unit = case["verdict"]["unit"].as_str().unwrap();
-        for (fmt, doc) in [("yaml", yaml_scalar.clone()), ("json", json_scalar.clone())] {
+        for (fmt, doc) in [("yaml", yaml_scalar.clone()), ("json", json_scalar.clone()), ("i64 value", text.clone())] {
+            let as_i64 = doc.trim().parse::<i64>();
+            if fmt == "i64 value" && !(is_int && as_i64.is_ok()) {
+                continue;
+            }
             let r = catch(|| -> Result<TimeTriggerInterval, String> {
-                if fmt == "yaml" { serde_yaml::from_str(&doc).map_err(|e| e.to_string()) } else { serde_json::from_str(&doc).map_err(|e| e.to_string()) }
+                if fmt == "yaml" {
+                    serde_yaml::from_str(&doc).map_err(|e| e.to_string())
+                } else if fmt == "json" {
+                    serde_json::from_str(&doc).map_err(|e| e.to_string())
+                } else {
+                    serde_value::Value::I64(as_i64.clone().unwrap()).deserialize_into::<TimeTriggerInterval>().map_err(|e| e.to_string())
+                }
             });
             let got = match r {
                 Err(p) => return Some(json!({"what": "panic", "format": fmt, "text": text, "error": p})),
